@@ -18,8 +18,8 @@ var c19Lines = []string{`{"a":1}`, `{"b":2}`, `{"a":1,"b":2}`, `{"c":3}`, `not j
 // what a session may expect / forbid
 var c19Patterns = []interface{}{
 	map[string]interface{}{"a": "?x"},
-	map[string]interface{}{"b": "?y"},
-	map[string]interface{}{"c": 3.0},
+	map[string]interface{}{"b": 2.0},
+	map[string]interface{}{"a": "?x", "b": "?y"}, // needs both properties in ONE message
 }
 
 // c19Guard: a guard that accepts (returns the bindings) or rejects (returns none).
